@@ -8,7 +8,7 @@ mapping index -> case does not depend on the budget, so a replay file stays vali
 from driver import Job
 
 # CPU seconds allowed per case (ITIMER_VIRTUAL inside the worker), by monitor command
-CPU_LIMIT = {"c05": 20, "c12": 60}
+CPU_LIMIT = {"c05": 20, "c12": 20}
 
 COMMON_ASSUME = [
     "x86_64-linux only; rustc/std, the harness crate and the sanitizers are trusted",
@@ -540,14 +540,15 @@ def plan_C10(tier, seed):
 def plan_C12(tier, seed):
     n = q(tier, 64_000, 4_000_000)
     jobs = [
-        Job("wellformed-chk", "chk", "c12", n, {"mode": "wellformed", "rounds": q(tier, 4, 64)}, cpu_limit=60,
+        Job("wellformed-chk", "chk", "c12", n, {"mode": "wellformed", "rounds": q(tier, 4, 64)}, cpu_limit=20,
             crash_is_violation=True),
-        Job("wellformed-rel", "rel", "c12", n, {"mode": "wellformed", "rounds": q(tier, 4, 64)}, cpu_limit=60,
+        Job("wellformed-rel", "rel", "c12", n, {"mode": "wellformed", "rounds": q(tier, 4, 64)}, cpu_limit=20,
             crash_is_violation=True),
-        Job("illformed-chk", "chk", "c12", n, {"mode": "illformed"}, cpu_limit=60, crash_is_violation=True),
-        Job("illformed-rel", "rel", "c12", n, {"mode": "illformed"}, cpu_limit=60, crash_is_violation=True),
-        Job("deep-rel", "rel", "c12", q(tier, 24, 48), {"mode": "deep", "deep_log2": q(tier, 20, 23)}, cpu_limit=600,
-            crash_is_violation=True),
+        Job("illformed-chk", "chk", "c12", n, {"mode": "illformed"}, cpu_limit=20, crash_is_violation=True),
+        Job("illformed-rel", "rel", "c12", n, {"mode": "illformed"}, cpu_limit=20, crash_is_violation=True),
+        Job("deep-rel", "rel", "c12", q(tier, 24, 48), {"mode": "deep", "deep_log2": q(tier, 20, 23),
+                                                       "live_ceiling_mb": q(tier, 3072, 12000)}, cpu_limit=600,
+            nshards=q(tier, 16, 4), crash_is_violation=True),
         Job("deep-chk", "chk", "c12", 16, {"mode": "deep", "deep_log2": q(tier, 18, 21)}, cpu_limit=600,
             crash_is_violation=True),
     ]
